@@ -192,13 +192,15 @@ class WeakForms(_Simu):
 
         elif self.algo == AlgoType.parabolic:
             u = results["u"]
-            v = results["v"]
+            # the iteration may have been saved with another time scheme
+            v = results["v"] if "v" in results else np.zeros_like(u)
             self._Set_solutions(self.problemType, u, v)
 
         elif self.algo in AlgoType.Get_Hyperbolic_Types():
             u = results["u"]
-            v = results["v"]
-            a = results["a"]
+            # the iteration may have been saved with another time scheme
+            v = results["v"] if "v" in results else np.zeros_like(u)
+            a = results["a"] if "a" in results else np.zeros_like(u)
             self._Set_solutions(self.problemType, u, v, a)
 
         else:
